@@ -273,6 +273,44 @@ def judge(case):
             want = [f'{case["which"]} {case["name"]}', '{'] + list(content or []) + ['};', '']
             if lines != want:
                 bad('struct', f'{lines} expected {want}')
+        elif kind == 'block-contents':
+            # contents whose string form is more than their plain lines (a comment, a block with a header, an indented
+            # block, blocks nested in blocks): a struct / class / namespace renders them UNCHANGED, i.e. as str(contents)
+            from dznpy.scoping import NamespaceIds  # pylint: disable=import-outside-toplevel
+            from dznpy.text_gen import TextBlock, Indentizer  # pylint: disable=import-outside-toplevel
+
+            def mk_content(form):
+                if form == 'comment':
+                    return G.Comment(['first', '', 'third'])
+                if form == 'header':
+                    return TextBlock(['int x;', 'int y;'], header='public:')
+                if form == 'indented':
+                    return TextBlock(['int x;', '', 'int y;']).indent(Indentizer(spaces_count=2))
+                if form == 'nested-header':
+                    return TextBlock([TextBlock(['int x;'], header='private:'), G.Comment('note'), 'int z;'])
+                if form == 'comment-with-header':
+                    return G.Comment(['body'])
+                if form == 'section':
+                    return TextBlock([G.AccessSpecifiedSection(G.AccessSpecifier.PUBLIC, TextBlock(['int x;']))])
+                return TextBlock(['int x;'])
+            inner = mk_content(case['form'])
+            inner_text = str(inner)
+            what = case['what']
+            if what == 'namespace':
+                obj = G.Namespace(NamespaceIds(['N']), inner) if not case['later'] else G.Namespace(NamespaceIds(['N']))
+                head, tail = 'namespace N {\n', '} // namespace N\n'
+            else:
+                cls = G.Struct if what == 'struct' else G.Class
+                obj = cls('S', inner) if not case['later'] else cls('S')
+                head, tail = f'{what} S\n{{\n', '};\n'
+            if case['later']:
+                obj.contents = inner
+            text = str(obj)
+            if text != head + inner_text + tail:
+                bad('block-changes-its-contents', f'{what} with {case["form"]} contents: {text!r} expected '
+                                                  f'{head + inner_text + tail!r}')
+            if str(inner) != inner_text:
+                bad('rendering-a-block-changes-the-contents-object', f'{what} {case["form"]}')
         elif kind == 'section':
             from dznpy.text_gen import TextBlock  # pylint: disable=import-outside-toplevel
             spec = G.AccessSpecifier[case['spec']]
@@ -466,6 +504,9 @@ def other_cases():
     for first, second, how in itertools.product(('struct', 'class', 'namespace'), ('struct', 'class', 'namespace'),
                                                 ('append', 'iadd')):
         yield {'kind': 'sharing', 'first': first, 'second': second, 'how': how}
+    for what, form, later in itertools.product(('struct', 'class', 'namespace'),
+                                               ('plain', 'comment', 'header', 'indented', 'nested-header', 'section'), (False, True)):
+        yield {'kind': 'block-contents', 'what': what, 'form': form, 'later': later}
     for what in ('struct', 'class', 'namespace'):
         for lines in (['int b;'], ['int b;', '', 'int c;'], ['  indented();', 'x;']):
             yield {'kind': 'rerender', 'what': what, 'lines': lines}
